@@ -127,6 +127,29 @@ func normalizeNewHelpers(repo string, first []*packages.Package, ref map[string]
 		rep.NewFuncs = append(rep.NewFuncs, k)
 	}
 	sort.Strings(rep.NewFuncs)
+	// The inliner tidies imports with goimports, which guesses a package's name from its import path and deletes
+	// `import "…/server/v2"` (package mqtt) as unused. Such imports get their name written out first.
+	if len(nf) > 0 {
+		if files := nameImplicitImports(pkgs); len(files) > 0 {
+			saved := map[string][]byte{}
+			for name, b := range files {
+				saved[name] = rep.Overlay[name]
+				rep.Overlay[name] = b
+			}
+			p2, err := loadPkgs(repo, packages.LoadSyntax, rep.Overlay)
+			if err != nil || hasErrors(p2) != "" {
+				for name, b := range saved {
+					if b == nil {
+						delete(rep.Overlay, name)
+					} else {
+						rep.Overlay[name] = b
+					}
+				}
+			} else {
+				pkgs = p2
+			}
+		}
+	}
 
 	renamedOnce := map[string]bool{}
 	const maxRounds = 12
@@ -235,6 +258,12 @@ func normalizeNewHelpers(repo string, first []*packages.Package, ref map[string]
 		pkgs, err = loadPkgs(repo, packages.LoadSyntax, rep.Overlay)
 		if err != nil || hasErrors(pkgs) != "" {
 			rep.Failed = append(rep.Failed, "result of inlining does not type-check: "+hasErrors(pkgs))
+			if d := os.Getenv("VERIF_DUMP_NORM"); d != "" {
+				os.MkdirAll(d+"/failed", 0o755)
+				for name, b := range rep.Overlay {
+					os.WriteFile(d+"/failed/"+strings.ReplaceAll(strings.TrimPrefix(name, repo+"/"), "/", "__"), b, 0o644)
+				}
+			}
 			rep.Abandoned = true
 			rep.Overlay = map[string][]byte{}
 			return rep
@@ -252,7 +281,7 @@ func normalizeNewHelpers(repo string, first []*packages.Package, ref map[string]
 			}
 			for _, name := range p.CompiledGoFiles {
 				src := content(name)
-				if !bytes.Contains(src, []byte("}()")) && !bytes.Contains(src, []byte("++ {")) && !bytes.Contains(src, []byte("min(")) && !bytes.Contains(src, []byte("max(")) {
+				if !bytes.Contains(src, []byte("}()")) && !bytes.Contains(src, []byte("++ {")) && !bytes.Contains(src, []byte("min(")) && !bytes.Contains(src, []byte("max(")) && !bytes.Contains(src, []byte("maps.Copy(")) {
 					continue
 				}
 				if out, k := deliteralize(name, src); k > 0 {
